@@ -1488,6 +1488,8 @@ class ComponentSpecification(experiment.model.interface.InternalRepresentationAt
                     # VV: lack of a dockerImage is equivalent to using the local backend
                     # VV: Use a consistent key with the kubernetes backend
                     return {'image': info_backend['dockerImage']}
+                elif backend_type == 'docker' and info_backend.get('image'):
+                    return {'image': info_backend['image']}
                 return {}
 
             info_backend = postprocess_backend(backend_type, resourceManager.get(backend_type, {}))
